@@ -22,10 +22,14 @@ structure Cfg where
   /-- the miss path of `memoize` keeps the value stored first and returns the stored value
       (`dict.setdefault`); pinned tree: plain assignment, every thread returns its own result. -/
   memoizeFirstStoreWins : Bool
+  /-- the function generated for an element reads every operand through `model.memoize(…)` when it is evaluated;
+  no operand VALUE is copied into the function string when the element is defined (wave 6; the defective variant
+  writes the number of a constant operand into the term of the element that uses it). -/
+  operandsThroughMemo : Bool
 deriving DecidableEq, Repr
 
 def Cfg.good (c : Cfg) : Bool :=
-  c.initialValueResetsCache && c.addEquationResetsCache && c.memoizeFirstStoreWins
+  c.initialValueResetsCache && c.addEquationResetsCache && c.memoizeFirstStoreWins && c.operandsThroughMemo
 
 /-- Uninterpreted carrier operations: `bin 0..3` = `+ - * /`, `max0 x` = `max(0, x)`. -/
 structure Ops (α : Type) where
@@ -151,10 +155,29 @@ def updFn {β : Type} (f : Nat → β) (n : Nat) (v : β) : Nat → β := fun i 
 /-- `generate_function` clears only the element's own memo. -/
 def clearOwn {α : Type} (m : Memo α) (n : Nat) : Memo α := m.filter (fun e => e.1.1 != n)
 
+/-- the definition-time copy: every reference to an element that is, at this moment, a converter/constant defined by
+a number is replaced by that number. -/
+def bakeE {α : Type} (kind : Nat → Kind) (eqn : Nat → Option (Expr α)) : Expr α → Expr α
+  | .lit x => .lit x
+  | .ref m => (match kind m, eqn m with
+      | .other, some (.lit v) => .lit v
+      | _, _ => .ref m)
+  | .prev m => .prev m
+  | .bin op a b => .bin op (bakeE kind eqn a) (bakeE kind eqn b)
+  | .max0 a => .max0 (bakeE kind eqn a)
+  | .atStart a b => .atStart (bakeE kind eqn a) (bakeE kind eqn b)
+  | .rnd => .rnd
+  | .lookup p a => .lookup p (bakeE kind eqn a)
+
+/-- the expression the term generator turns into the element's function: the definition itself, or (defective
+variant) the definition with the current numbers of its constant operands copied in. -/
+def installed {α : Type} (c : Cfg) (s : St α) (e : Expr α) : Expr α :=
+  if c.operandsThroughMemo then e else bakeE s.kind s.eqn e
+
 def step {α : Type} (c : Cfg) (ops : Ops α) (s : St α) : Op α → St α
   | .setEq n e =>
       { s with eqn := updFn s.eqn n (some e)
-               body := updFn s.body n (build s.dt (s.kind n) n (s.init n) (some e))
+               body := updFn s.body n (build s.dt (s.kind n) n (s.init n) (some (installed c s e)))
                memo := [] }
   | .setInit n e =>
       { s with init := updFn s.init n e
